@@ -21,7 +21,7 @@ INFO = {
     'C09': ('Model/Kafka', 'Props/C09', 'fake confluent_kafka; crash after every event (thorough)'),
     'C10': ('Model/Graph (metadata); Proofs/Metadata; node groups AsyncWindows/AsyncZip/AsyncBuffer', 'Props/C10, Props/AsyncMetadata (c10_)', 'tag lists at every event; batches/tuples with metadata of the asynchronous node groups; metadata oracle on asynchronous pipelines'),
     'C11': ('Model/Rolling', 'Props/C11', 'API vs model vs pandas one-pass; all compositions (thorough)'),
-    'C12': ('Model/Resume (generic step functions) + instantiations', 'Props/C12', 'state emitted by pipeline 1 seeds pipeline 2, every cut'),
+    'C12': ('Model/Resume (generic step functions) + instantiations; Model/Graph (accumulate adopts its state before the hand-over)', 'Props/C12, C12Agg, C12Window, C12Graph', 'state emitted by pipeline 1 seeds pipeline 2, every cut; also with a consumer rejecting a delivery'),
     'C13': ('Model/RateLimit', 'Props/C13', 'exact delivery instants'),
     'C14': ('Model/Latest', 'Props/C14', 'one-handle step mode; exhaustive interleavings; re-entrant arrivals'),
     'C15': ('Model/Edit; Proofs/EditInv', 'Props/C15', 'links, liveness, deliveries after every edit'),
